@@ -35,6 +35,8 @@ def run(ctx):
   ctx.borrow(c12.rule_tables, "R-C13-SF", lambda r: "ASYMPTOTIC_RANK_SF" in r.where, ctx.tier)   # a survival probability printed too small fails a good generator
   ctx.expect("R-C13-SF", 33, "33 survival probabilities of the large-rank test")
   rule_ctor(ctx)
+  rule_holdout(ctx)
+  ctx.expect("R-C13-HOLDOUT", 1, "FindBiasImpl")
   ctx.expect("R-C13-CTOR", 6, "five constructor parameters + initial state")
   ctx.expect("R-C13-GATE", 1, "500-cycle gate")
   ctx.expect("R-C13-RANK", 3, "loop condition, guard agreement, matrix shape")
@@ -535,3 +537,47 @@ def rule_ctor(ctx):
   ok0 = r0 is not None and not isinstance(r0, Const) and as_poly(r0).as_int() == 0 or (isinstance(r0, Const) and r0.v == 0)
   okf = isinstance(fin0, Const) and fin0.v is False
   ctx.record(R, f.where, "starts with runs = 0, not finished", bool(ok0 and okf), "initial state" if ok0 and okf else "runs starts at %r, finished at %r" % (r0, fin0))
+
+
+# ------------------------------------------------------------------ HOLDOUT (FindBias: the p-value is computed on blocks the multiplier was not fitted on)
+def rule_holdout(ctx):
+  """lattice_suite.FindBiasImpl searches a multiplier c (LLL) and an offset d (PseudoAverage) on a training prefix sample[:T] and must measure the bias on the
+  remaining blocks sample[T:] only: on the fitted blocks every generator looks biased, which pushes the p-values of good generators towards 0."""
+  R = "R-C13-HOLDOUT"
+  repo = ctx.repo
+  f = repo.func("randomness_tests.lattice_suite", "FindBiasImpl")
+  w = sym.Walker(repo, f)
+  w.run()
+  sample = P("param", f.params()[0])
+
+  def prefix_end(p_):
+    a_ = as_poly(p_).as_atom() if isinstance(p_, Poly) else None
+    if a_ is not None and a_.kind == "slice" and len(a_.args) == 4 and as_poly(a_.args[0]) == sample and repr(a_.args[3]) == "lit('None')" and \
+       (repr(a_.args[1]) == "lit('None')" or as_poly(a_.args[1]).as_int() == 0) and repr(a_.args[2]) != "lit('None')":
+      return as_poly(a_.args[2])
+    return None
+
+  def suffix_start(p_):
+    a_ = as_poly(p_).as_atom() if isinstance(p_, Poly) else None
+    if a_ is not None and a_.kind == "slice" and len(a_.args) == 4 and as_poly(a_.args[0]) == sample and repr(a_.args[3]) == "lit('None')" and \
+       repr(a_.args[2]) == "lit('None')" and repr(a_.args[1]) != "lit('None')":
+      return as_poly(a_.args[1])
+    return None
+  lat = [e for e in w.events if e.kind == "call" and e.data["name"].endswith(":GetLattice") and e.data["args"]]
+  bias = [e for e in w.events if e.kind == "call" and e.data["name"].endswith("lattice_suite:Bias") and e.data["args"]]
+  probs = []
+  T_ = {repr(prefix_end(e.data["args"][0])) for e in lat}
+  if not lat or "None" in T_ or len(T_) != 1:
+    probs.append("the lattice is not built from a prefix sample[:T]")
+  for e in bias:
+    st = suffix_start(e.data["args"][0])
+    if st is None:
+      probs.append("the p-value is computed on %s, not on the held-out blocks sample[T:]: blocks the multiplier was fitted on are counted" % repr(as_poly(e.data["args"][0]))[:60])
+    elif lat and repr(st) not in T_:
+      probs.append("the held-out part starts at %s, the training prefix ends at %s" % (repr(st)[:40], sorted(T_)[0][:40]))
+  if not bias:
+    probs.append("no Bias call")
+  rets = [t_ for t_ in w.terminals if t_[0] == "return"]
+  if bias and not all(isinstance(t_[1], Poly) and any(t_[1] == as_poly(e.data["value"]) for e in bias) for t_ in rets):
+    probs.append("the returned p-value is not the held-out bias")
+  ctx.record(R, f.where, "p-value from blocks not used for fitting", not probs, "; ".join(sorted(set(probs))) or "GetLattice(sample[:T]) / Bias(sample[T:])")
